@@ -460,6 +460,8 @@ package cache
 //@ spec func shardIndex(d *dispatcher, key []byte) int := memhash(contents(key)) % d.zoneSize
 //@ spec func shardOf(d *dispatcher, key []byte) *httpLRUCache := d.list[shardIndex(d, key)]
 //@ spec func keyOf(key []byte) any := box(b2s(contents(key)))
+// the same in terms of the key text (what the admin API receives)
+//@ spec func shardOfText(d *dispatcher, key string) *httpLRUCache := d.list[memhash(s2b(key)) % d.zoneSize]
 // every value held by a shard is a non-nil cache entry
 //@ pred lruInv(l *httpLRUCache) := forall k any :: l.cache.dom[k] ==> typeis(l.cache.view[k], "*httpCache") && unbox(l.cache.view[k], "*httpCache") != nil
 //@ lockinv httpLRUCache.mu(l) [entries]: lruInv(l)
